@@ -12,12 +12,15 @@ NOTE_COMMON = ('Trusted base: CPython, CrossHair 0.0.110 (its models of int/str/
 
 CLAIMED = {
     'C15': dict(
-        technique='bounded symbolic execution of the real resolver code (CrossHair + z3), sliced; solver counterexamples replayed natively',
-        text='Bounded symbolic checking: CrossHair executes TimexResolver/TimexValue/TimexDateHelpers on symbolic reference dates '
-             '(1950..2090), weekdays, years 1..9998, months, ISO weeks and duration amounts; z3 decides every path and the check only '
-             'counts a slice when all its paths are confirmed. Counterexamples are replayed on the real code without CrossHair.',
-        note='Timex objects are built from fields (the TIMEX-string parsing step is C14). Number->string rendering is replaced by marker '
-             'stubs (harness/marks.py) and the real renderer is checked by its own obligation. ' + NOTE_COMMON,
+        technique='bounded symbolic execution (symx + z3, symbolic calendar) of the real resolver and range-resolver code, sliced; inductive step for constraint collapse; solver counterexamples replayed natively',
+        text='The real TimexResolver / TimexValue / TimexDateHelpers run on symbolic reference dates (1950..2090), weekdays, years 1..9998, months, ISO weeks and duration '
+             'amounts. TimexRangeResolver.evaluate runs on TIMEX strings whose date/time fields are symbolic-digit placeholders: a weekday candidate against one date range '
+             '(every start day 1951..2089; soundness and completeness), month-day candidates (all month-days incl. 29 Feb) against a year / year-month / explicit range, time '
+             'candidates against 1..2 time-range constraints (H/M/S durations, parts of day), weekday + date range + time constraint. TimexConstraintsHelper.collapse runs on 1..4 '
+             'ranges with symbolic endpoints under a termination monitor: every collapsed range lies inside a supplied one, for dates and for times.',
+        note='An end-to-end run with 2..3 symbolic dates inside the constraint strings was too expensive (three civil-calendar conversions per query); it is replaced by the '
+             'collapse step on abstract ranges plus single-range evaluate, stated in DESIGN. Duration candidates and time-range candidates are not claimed. '
+             'Defects F8a/F8b and F20-F23 were found here and repaired. Number->string rendering is replaced by placeholder stubs and the real renderer is checked by its own obligation. ' + NOTE_COMMON,
         design='§5/C15'),
 }
 
@@ -28,7 +31,7 @@ CLAIMED['C14'] = dict(
          '(derived from the regex source at run time) is one slice whose fields range over their whole calendar range. Asserts: fields '
          'parsed as written, format->parse gives the same 20 fields, format idempotent, canonical strings unchanged, from_date/from_date_time/from_time canonical.',
     note='Sound because the TIMEX patterns only test digit-ness (checked on the regex source each run). decimal.Decimal is replaced by a '
-         'text-preserving stub; explicit (start,end,duration) ranges are outside. ' + NOTE_COMMON,
+         'text-preserving stub; explicit (start,end,duration) ranges are outside. Date-range pattern + T part is the region of known finding F19 (characterised by its own obligation); F7b: zero amounts. ' + NOTE_COMMON,
     design='§5/C14')
 
 CLAIMED['C07'] = dict(
@@ -83,23 +86,25 @@ CLAIMED['C01'] = dict(
     text='Length-preserving preprocessing is confirmed by CrossHair for every code point (symbolic one-character string; two characters in the thorough '
          'tier). ' + SX + 'The number and sequence sweeps, the percentage position map, merge_all_tokens and the six Model.parse assemblers run on '
          'arbitrary contract-respecting match intervals in bounded sources; each result must be in range, non-empty and carry the trimmed slice as text, '
-         'and each model result must have end = start + length - 1.',
-    note='The regex engine is a stub returning symbolic intervals under the finditer contract; which intervals real patterns produce is outside. '
-         'Units not covered: NumberWithUnitExtractor prefix/suffix arithmetic, phone prefix re-spanning, merged date-time modifier strip/restore, CJK extractors. '
-         'Known finding F2 (empty date-time entity) is reported through its API witness. ' + NOTE_COMMON,
+         'and each model result must have end = start + length - 1. The unit extractor (prefix/suffix offsets), the merged parser modifier strip/restore and add_mod run on symbolic '
+         'spans as well. At API level about 23 000 queries assembled from pools (pads, dialing/currency prefixes, bodies, tails) go through 12 recognisers with all real regexes '
+         '(small-scope enumeration through the solver): range, text = normalised slice, disjointness.',
+    note='In the unit obligations the regex engine is a stub returning symbolic intervals under the finditer contract; which intervals real patterns produce is decided only '
+         'on the composed pool. CJK extractors are not covered. Known finding F2 (empty date-time entity) is reported through its API witness; F1 and F17 were found here and repaired. ' + NOTE_COMMON,
     design='§5/C01')
 CLAIMED['C12'] = dict(
     technique='one inductive step per overlap-resolution mechanism on symbolic intervals (symx + z3), known defect regions excluded and searched separately',
-    text=SX + 'add_to, merge_all_tokens, the number/sequence union sweeps and the unit model b_add filter run on arbitrary disjoint/contract-respecting '
-         'symbolic intervals; the output must be pairwise disjoint (and nothing may vanish without a covering competitor). Regions F3a/F3b are excluded '
-         'by precondition and each is searched by its own obligation plus an API witness, which print KNOWN-FINDING while the defect exists.',
-    note='Covers the mechanisms named in the property anchors, not the interplay of real patterns on a sentence; _select_candidates and the merged '
-         'number/unit grouping are not built. ' + NOTE_COMMON,
+    text=SX + 'add_to, merge_all_tokens, the number/sequence union sweeps, the unit extractor candidate selection (_select_candidates) and the unit model b_add filter run '
+         'on arbitrary contract-respecting symbolic intervals; the output must be pairwise disjoint (and nothing may vanish without a covering competitor). Region F3a is excluded '
+         'by precondition and searched by its own obligation plus an API witness, which print KNOWN-FINDING while the defect exists. At API level, date-time / currency / dimension / '
+         'percentage queries assembled from pools go through the real recognisers: entities pairwise disjoint, an overlap being excused only when a recording monitor around the real '
+         'add_to attributes that very pair to F3a.',
+    note='The composed pool is a finite grammar explored exhaustively through the solver (stated as such); the merged number/unit grouping is not built. F9 and F18 (F3b) were found here and repaired. ' + NOTE_COMMON,
     design='§5/C12')
 
 CLAIMED['C16'] = dict(
     technique='solver-driven small-scope exploration (symx + z3): strings assembled from symbolic indices into a class alphabet, real tokenizers/trie/matcher run on each',
-    text=SX + 'Every string of length <= 4 (thorough 6) over an alphabet of character classes (letter, digit, $, punctuation, space, CJK, ...) goes through '
+    text=SX + 'Every string of length <= 4 (thorough 5) over an alphabet of character classes (letter, digit, $, punctuation, space, CJK, ...) goes through '
          'both tokenizers; every pair of 1..2-token phrases and every query of <= 4 tokens through TrieTree; every query of length 5 (thorough 7) through '
          'StringMatcher with four phrases. Oracles: an independently written reference tokenizer and a brute-force occurrence search.',
     note='Strings cannot be symbolic in this engine: the solver enumerates the index space (exhaustive small scope, stated as such); the property sizes '
@@ -110,8 +115,10 @@ CLAIMED['C10'] = dict(
     technique='bounded symbolic execution (symx + z3) of the real duration parser (symbolic N), the two-endpoint date range parser (symbolic endpoints) and luis_time_span',
     text=SX + "'N <unit>' runs through BaseDurationParser.parse and the resolution builder for every unit word with N symbolic in 1..5000 (TIMEX P[T]N<U>, value N x unit seconds). "
          'A range between two absolute dates runs through BaseDatePeriodParser.parse with the start day number (1900..2088) and the gap (1..4000 days) symbolic: '
-         'resolved start/end must be exactly the endpoints and the TIMEX (start,end,PnD) must satisfy end - start = n. luis_time_span is checked on symbolic instants.',
-    note='Inner number/date extractors and parsers are stubs feeding symbolic values; fractional amounts, time and date-time ranges and the Specs-corpus clause are outside. '
+         'resolved start/end must be exactly the endpoints and the TIMEX (start,end,PnD) must satisfy end - start = n. "from <time> to <time>" runs through '
+         'BaseTimePeriodParser.merge_two_time_points with both clock times symbolic (marked or unmarked am/pm): start < end <= start + 24 h and the PT..H..M of the TIMEX equals end - start. '
+         'luis_time_span is checked on symbolic instants.',
+    note='Inner number/date/time extractors and parsers are stubs feeding symbolic values; fractional amounts, date-time ranges and the Specs-corpus clause are outside. '
          'Defect F10 (Feb-29 year synchronisation applied to explicit-year ranges) was found by O10.4 and repaired. ' + NOTE_COMMON,
     design='§5/C10')
 CLAIMED['C11'] = dict(
@@ -128,7 +135,7 @@ CLAIMED['C13'] = dict(
     text='The patterns the sequence recogniser compiles are translated to z3 regex terms and proved equal, for strings of unbounded length, to oracle languages '
          'built from the address grammars (all 256^4 IPv4 addresses with up to three digits per octet, every RFC 4291 text form, every GUID layout of the pattern). '
          'A counterexample is a concrete string, replayed against the real regex engine and an independent validity predicate. drop_leading_zeros is confirmed by '
-         'CrossHair over all pairs of 1..3-digit groups. Solver-generated members and near-misses go through recognize_ip_address / recognize_guid as a composition check.',
+         'CrossHair over all pairs of 1..3-digit groups and over every group string in first / inner / last position for both separators. Solver-generated members and near-misses go through recognize_ip_address / recognize_guid as a composition check.',
     note='Edge word-boundary assertions are stripped (reported in the evidence); exact-span recognition inside text is only validated on solver witnesses, not proved. '
          'E-mail/URL/hashtag/mention/phone clauses are not covered (patterns with nested look-arounds are outside the translator). ' + NOTE_COMMON,
     design='§5/C13')
@@ -145,10 +152,10 @@ CLAIMED['C20'] = dict(
 CLAIMED['C03'] = dict(
     technique='symbolic execution (symx + z3) of the real digit kernel on numerals with symbolic digits and an exact Decimal proxy; CrossHair for the output formatter',
     text=SX + 'BaseNumberParser._get_digital_value runs with each culture\'s real separator configuration on every numeral shape (plain, grouped, decimal, grouped+decimal, '
-         'signed; <= 15 digits) with all digits symbolic: the value must equal the number written, for every digit assignment at once. CultureInfo.format is confirmed by '
+         'signed; <= 15 digits; for the cultures that accept both conventions also with the marks exchanged; with suffix multipliers 10^3..10^12 as the kernel parameter) with all digits symbolic: the value must equal the number written, for every digit assignment at once. CultureInfo.format is confirmed by '
          'CrossHair over all decimal strings [-]d{1,4}[.d{0,3}] per culture; the percentage parser appends "%" exactly once and keeps the span.',
     note='Decimal and its context are replaced by an exact proxy (valid up to 15 digits; validated against real Decimal on random numerals every run). The regex layer, CJK '
-         'cultures, multipliers/fractions/powers, sign words and numerals beyond 15 digits are outside. Language layer (O3.1): every numeral of the culture grammar is proved to be '
+         'cultures, recognition of the multiplier suffix, fractions/powers, sign words and numerals beyond 15 digits are outside. Language layer (O3.1): every numeral of the culture grammar is proved to be '
          'fully matched by one of the patterns the culture extractor compiles (8 cultures; known findings F14-F16 are the slices where that fails). ' + NOTE_COMMON,
     design='§5/C03')
 
@@ -161,20 +168,22 @@ CLAIMED['C04'] = dict(
     design='§5/C04')
 
 CLAIMED['C05'] = dict(
-    technique='solver-driven exploration (symx + z3) of the real unit parser over the real English tables; z3 floating-point queries for the compound-currency sum',
+    technique='solver-driven exploration (symx + z3) of the real unit parser over the real unit tables; z3 real/floating-point queries on the compound-currency arithmetic traced from the real merge code',
     text=SX + 'Every listed English spelling of a batch (currency, dimension, temperature, age) goes through NumberWithUnitParser.parse / BaseCurrencyParser.parse in four '
          'layouts, three number lengths and both letter cases; the unit must be the canonical name given by an independent reading of the tables, the number the inner '
-         'parser\'s resolution, the ISO code the table\'s. bind_dictionary is explored over all small dictionaries. The compound sum N + M * (1/100) is compared by z3 (QF_FP) '
+         'parser\'s resolution, the ISO code the table\'s. bind_dictionary is explored over all small dictionaries. The real compound-currency merge code runs on traced numbers for all 157 main/fraction pairs of the '
+         'real tables (z3 linear real arithmetic: one entity, main unit and ISO, worth N + M/ratio); its double-precision term (US dollar/cent) is compared by z3 (QF_FP) '
          'with one correctly rounded division; the solver finds amounts that print wrongly (known finding F4) and, in the thorough tier, proves a one-ulp bound for N < 1024.',
     note='Per-row table quantifier: quick covers every fourth batch of 40 spellings, thorough all rows (an exhaustive finite enumeration driven through the solver, stated as such). '
          'Inner numerals are C03; the extractor/matcher side is C16; other cultures and compound control flow are outside. Known findings F4, F12. ' + NOTE_COMMON,
     design='§5/C05')
 
 CLAIMED['C02'] = dict(
-    technique='inductive cache step on symbolic keys + solver-driven exploration (symx) of ordered request pairs x cache state x thread through the public API',
+    technique='inductive cache step on symbolic keys (symx + z3); two-call history of the number parser on symbolic digits (symx + z3); exhaustive composition check of ordered request pairs x cache state x thread against a fresh-interpreter baseline',
     text=SX + 'Purity is reduced to the state that outlives a call. The model cache is covered by one inductive step from an arbitrary valid cache state (any history, any order). '
-         'Every ordered pair of 16 public-API requests (5 recognisers, 6 cultures), with cold or warm cache and the second request on the main or on a fresh thread, must give the '
-         'second request the result it has alone; 2..4 threads issuing one request at once on a cold cache must all get that result.',
+         'Every ordered pair of 28 public-API requests (5 recognisers, 6 cultures, numerals in both separator conventions), with cold or warm cache and the second request on the main or on a fresh thread, must give the '
+         'second request the result it has alone in a fresh interpreter; at unit level the digit kernel runs twice on one parser object, the second numeral with symbolic digits; '
+         '2..4 threads issuing one request at once on a cold cache must all get that result.',
     note='Thread interleavings inside a call are exercised (one schedule each), not explored: no installed engine controls the GIL schedule, so the "all interleavings" part of the '
          'quantifier is outside the claim. The request pool stands for "any request". Defect F6 (thread-local decimal precision) was found this way and repaired. ' + NOTE_COMMON,
     design='§5/C02')
